@@ -280,7 +280,7 @@ theorem callPubsubCb_triple {R : St → Prop} (hR : Stable R) (m : ModId) (evts 
     refine Triple.quietS hR _ ?_
     apply Quiet.pointwise'
     intro s'
-    exact ⟨_, quiet_destroyEvts evts (match s'.mods[m]? with | some md => md.stash | none => []), rfl⟩
+    exact ⟨_, quiet_destroyEvts evts (s'.mods.flatMap (·.stash)), rfl⟩
 
 theorem quiet_pushEvtStore (m : ModId) (e : Evt) : Quiet (fun s => pushEvtStore s m e) := by
   apply Quiet.pointwise'
